@@ -117,6 +117,20 @@ CLAIMED = {
         technique="Rocq proof (step simulation + invariant over all histories) + translator-regenerated state machine + in-Coq differential correspondence on a threaded rig",
         design="5/C05",
     ),
+    "C06": dict(
+        text="Theorems (Props/C06.v): get_next_system_counter is translated statement by statement into the shared-memory operations other threads can observe, with whether "
+             "the body is inside one lock (harness/gen_alloc.py -> Gen/Alloc.v; C06_allocator_as_translated). For ANY number of threads and ANY schedule with fewer than 2^32 "
+             "allocations, two threads that obtained system bytes hold different ones (C06_system_bytes_distinct: invariant over all schedules + injectivity of next^i modulo "
+             "2^32); the same operations without the lock admit a schedule where two threads get the same value (C06_unlocked_race). A waiting requester receives exactly the "
+             "first arrival with its system bytes for every arrival sequence (C06_reply_to_requester) and all other messages reach the application exactly once in arrival "
+             "order (C06_others_in_order). The implementation is searched for failing schedules (every single preemption point at bytecode granularity) and driven with "
+             "concurrent requesters, bursts and reconnects.",
+        note=NOTE_COMMON + " Partial on 'interleavings': a locked body is ONE atomic step of the model (threading.Lock's mutual exclusion and the atomicity of a single attribute "
+             "load/store under the GIL are trusted); 'one at a time' for application callbacks rests on there being one dispatcher thread, which is observed (thread count, "
+             "overlap of callbacks) and not proven; timers are outside.",
+        technique="Rocq proof (invariant over all schedules of an interleaving model, arithmetic modulo 2^32, list induction for routing) + Python-ast translator + schedule search on the implementation + in-Coq differential correspondence",
+        design="5/C06",
+    ),
     "C07": dict(
         text="Theorems (Props/C07.v): for EVERY history of enable/disable, link selected/lost, S1F13, S1F14 (any COMMACK, readable or not), other messages and timer expiries "
              "the model of GemHandler's communication handling (over the communication machine regenerated from communication_state_machine.py, run by the engine model) takes "
